@@ -50,6 +50,29 @@ CLAIMS = {
                   "who-may-call scan over resolved calls, constructor call-closure rule, index-algebra "
                   "abstract interpretation of every transform() with canonical-form equality",
         design="3/C04"),
+    "C02": dict(
+        text="Static decision of the structural clauses of C02 for all inputs: (A) each of the 11 "
+             "expansion loops of rdmpropagator.py and the 3 of svpropagator.py is recognised and one "
+             "iteration is interpreted with the index algebra: counter over range(1,L+1), every term "
+             "that contains the running iterate contains it once with the factor dt/ll exactly once, "
+             "accumulator_new = accumulator_old + iterate_new, restart from the accumulator right "
+             "after the loop, nesting inside refinement and time loops, one store per outer step with "
+             "a slot counter starting at 1 and advancing by one, the step is the refined step; "
+             "(B) each generator term (commutator with Hermitian and non-Hermitian branch, tensor and "
+             "operator relaxation terms, field terms) is trace-free and maps Hermitian to Hermitian as "
+             "an identity, so every stored state keeps the trace and Hermiticity of the initial one "
+             "for every L, refinement and representation; state-vector generator is -i(dt/ll)H psi and "
+             "anti-Hermitian; (C) the assembled Lindblad tensor equals the GKSL generator term by "
+             "term; (D) routines that propagate with the rotating-wave Hamiltonian mark their result, "
+             "the back conversion is U rho U^+ with unit-modulus diagonal phases; (E) no in-place "
+             "operation on values aliasing the caller's initial state. Not decided: positivity of the "
+             "truncated series, truncation bounds, energy/purity conservation (magnitudes).",
+        note=BASE_NOTE + "Relaxation tensors passed to the propagator are assumed to satisfy the C01 "
+             "identities; Ld = Lm^+ for stored operator forms (established by C01-A).",
+        technique="loop-pattern recogniser over the AST + index-algebra interpretation of one "
+                  "expansion step (linearity, scalar factor, accumulation), TA identities for the "
+                  "generator terms, pairing rule for the RWA flag, alias/ownership rule",
+        design="3/C02"),
 }
 
 NOT_YET = "check not built yet in this round (see DESIGN.md section 3 for the planned rules)"
